@@ -86,12 +86,18 @@ class Center:
         else:
             res = self.offset
 
+        offset_orientation = self.orientation
+
         if hasattr(res, "form"):
             # The offset is a position/velocity vector, whatever the form
             # the statevector is expressed in
             res = res.copy(form="cartesian")
 
-        return self.orientation.convert_to(date, orientation) @ res
+            # A propagator may provide its result in an other frame than
+            # the one in which the orbit was expressed when linked
+            offset_orientation = res.frame.orientation
+
+        return offset_orientation.convert_to(date, orientation) @ res
 
 
 Earth = Center("Earth", body=constants.Earth)
